@@ -3,7 +3,7 @@
 (* so that the specification covers the library more widely: money text,    *)
 (* hex helpers, uint256 conversions, VerifySignature, P2SH wrapping, the    *)
 (* alert payloads, ECDH, and small predicates.                                *)
-EXTENDS ScriptVM, Rpc, Keys
+EXTENDS ScriptVM, Rpc, Keys, Address
 
 \* str_money_value: "%i.%08i" with trailing zeros stripped but one decimal kept
 RECURSIVE Dec10(_)
@@ -158,6 +158,20 @@ JMatch(e, g) ==
      [] e.t = "amt" -> LET d == DenotedSats(g.v) IN d.ok /\ d.sats = e.v
      [] e.t = "l" -> Len(e.v) = Len(g.v) /\ \A i \in 1..Len(e.v) : JMatch(e.v[i], g.v[i])
      [] e.t = "o" -> Len(e.v) = Len(g.v) /\ \A i \in 1..Len(e.v) : e.v[i][1] = g.v[i][1] /\ JMatch(e.v[i][2], g.v[i][2]))
+
+\* ------------------------------------------------------------ address conveniences (bitcoin.wallet)
+\* to_redeemScript: the script a signature for this address commits to.  P2PKH and P2SH give their
+\* scriptPubKey (P2SH cannot know more), P2WPKH gives the BIP143 script code (the P2PKH script of the
+\* key hash), P2WSH has no answer.
+RedeemScriptOf(a) ==
+  CASE a.cls \in {"P2PKH", "P2SH"} -> [ok |-> TRUE, s |-> ToScript(a)]
+    [] a.cls = "P2WPKH" -> [ok |-> TRUE, s |-> P2PKHScript(a.payload)]
+    [] a.cls = "P2WSH" -> [ok |-> FALSE]
+\* P2SHBitcoinAddress.from_redeemScript: refused above 520 bytes (ValueError), else the hash of the script
+P2SHOfRedeem(redeem) == IF Len(redeem) > 520 THEN [ok |-> FALSE] ELSE [ok |-> TRUE, a |-> [cls |-> "P2SH", payload |-> Hash160(redeem)]]
+\* P2PKHBitcoinAddress.from_pubkey: the hash of the key bytes; keys that are not points are refused unless asked otherwise
+P2PKHOfPubKey(pub, acceptInvalid) ==
+  IF acceptInvalid \/ FullyValid(pub) THEN [ok |-> TRUE, a |-> [cls |-> "P2PKH", payload |-> Hash160(pub)]] ELSE [ok |-> FALSE]
 
 IsFinalIn(i) == i.seq = Rep(255, 4)
 =============================================================================
